@@ -7,10 +7,10 @@ import (
 
 // ---- concrete data shapes with distinct leaves ----
 
-const numShapes = 7
+const numShapes = 8
 
 // shapeOrder lists the shapes most useful first (NSHAPES bounds the quick tiers).
-var shapeOrder = [...]int{0, 3, 2, 5, 4, 6, 1}
+var shapeOrder = [...]int{0, 3, 2, 5, 7, 4, 6, 1}
 
 func chooseShape() int {
 	n := vx.Param("NSHAPES", numShapes)
@@ -38,6 +38,9 @@ func mkData(shape int) any {
 			map[string]any{"a": int64(3)},
 			map[string]any{"b": int64(4), "a": int64(5)},
 		}
+	case 7:
+		// a member that only exists two container levels below an array
+		return []any{map[string]any{"a": map[string]any{"c": int64(30), "b": []any{int64(31)}}}, int64(32)}
 	}
 	return []any{int64(1), []any{int64(2), int64(3), int64(4), int64(5), int64(6)}, "x", nil, true}
 }
